@@ -619,9 +619,22 @@ def run(ctx):
     n_none = 0
     seen = set()
     n_distinct = 0
+    # objects that share an id but not their content, one after the other (the evaluatable data of one message, evaluated again after it changed)
+    V_, C_ = ns["ConditionFulfilledValue"], ns["ContentEvaluationResult"]
+    same_id = uuid.UUID(int=7)
+    insts = [C_(hints={}, format_constraints={}, requirement_constraints={"1": V_.UNKNOWN, "2": st}, packages=None, id=same_id) for st in (V_.UNKNOWN, V_.FULFILLED, V_.UNFULFILLED)] + insts
+    reused = {}   # ONE schema instance per class, used for every object of the run (the evaluators keep their schema too)
     for obj in insts:
         cname = type(obj).__name__
         S = ns[SCHEMA_OF[cname]]
+        if cname not in reused:
+            reused[cname] = S()
+        r2 = outcome(lambda: reused[cname].loads(reused[cname].dumps(obj)))
+        if r2[0] != "ok" or r2[1] != obj:
+            ctx.fail(f"reused-schema|{cname}|{json.dumps(to_desc(obj), sort_keys=True, ensure_ascii=False)}", {"schema": S.__name__, "object": to_desc(obj),
+                                                                                                          "history": "one schema instance dumps and loads every object of the run, this one after the others"},
+                     "loads(dumps(x)) == x on a schema instance that was used before", repr(r2[1])[:400] if r2[0] == "ok" else f"raises {r2[1]}",
+                     "oracle: round trip on a schema instance that has loaded other objects before")
         desc = to_desc(obj)
         key = f"{cname}|{json.dumps(desc, sort_keys=True, ensure_ascii=False)}"
         first = key not in seen
